@@ -2,8 +2,8 @@ SPECIFICATION GSpec
 CONSTANTS
   Mode = "struct"
   K = 3
-  ShapeLo = 1
-  ShapeHi = 1
+  ShapeSet = {1}
   Prefixed = FALSE
+  FamSet = {"v1", "sys", "v2"}
 INVARIANTS Replays DeclaredBeforeUse ConsumedOnce NamesComplete LengthBound
 CHECK_DEADLOCK FALSE
